@@ -24,13 +24,25 @@
      produces at least one byte, or ends the frame (0), or returns an error.
    - C08_reports_within_given: consumed <= |src|, produced <= capacity, and the bytes stored
      at dst (also on failing calls) are <= capacity.
+   - C08_complete_sound_oneshot(_usingDict): "never falsely succeeds", for ONE call on a context
+     at the start of a frame (fresh, reset, or after a completed frame) given bytes that begin
+     with the LZ4 frame magic: if the call returns 0 then Spec.frame_decode accepts these bytes
+     (header valid; every block decodable by the same block decoder against the specified
+     history - dictionary, or last 64 KB of dictionary ++ content for linked blocks -; block
+     checksums, content checksum and a non-zero declared content size verified, checksums
+     modulo skipChecksums exactly as Spec's skip flag; the model is even stricter: it verifies
+     the checksum of COMPRESSED blocks also under skipChecksums, as the C code does), the
+     bytes produced are the specified content, and the bytes consumed are exactly that frame.
+     Any capacity, NULL destination, stableDst; both the direct path and the staged-header
+     path (inputs shorter than maxFHSize); direct decoding and decoding through tmpOut.
    Partial (see the _full_statement below): equality of the verdict with Spec.frame_decode
-   on the concatenation for all chunkings is NOT proved at model level; it is checked on the
-   real code by the harness (same verdict under every chunking, complete => content equals
-   the extracted Spec.frame_decode). *)
+   on the concatenation for ALL chunkings (calls that stop in the middle of a frame and
+   resume from the staging buffers) is NOT proved at model level; it is checked on the real
+   code by the harness (same verdict under every chunking, complete => content equals the
+   extracted Spec.frame_decode), and the per-call tie makes the model follow the code. *)
 From Coq Require Import ZArith List Lia Bool.
 From LZ4V Require Import Spec.BlockSpec Spec.XXH32 Spec.FrameSpec Gen.Consts Model.FrameD.
-From LZ4V Require Import Proofs.FrameDHeader Proofs.FrameDProofs.
+From LZ4V Require Import Proofs.FrameDHeader Proofs.FrameDProofs Proofs.FrameDSound.
 Import ListNotations.
 Local Open Scope Z_scope.
 
@@ -85,6 +97,26 @@ Theorem C08_reports_within_given : forall bdec s src cap dict o,
 Proof. exact reports_within_given_thm. Qed.
 Print Assumptions C08_reports_within_given.
 
+Theorem C08_complete_sound_oneshot : forall bdec s0 data cap o,
+  wf s0 -> d_stage s0 = GetFrameHeader -> d_remaining s0 = 0 -> d_skip s0 = false ->
+  bytes_ok data = true -> 0 <= cap -> le_val (ztake 4 data) = FD_MAGICNUMBER ->
+  let r := snd (decompress bdec s0 data cap o) in
+  r_ret r = 0 -> zlen (r_out r) < 18446744073709551616 ->
+  exists rest, frame_decode bdec (o_skip o) (d_hist s0) data = Some (r_out r, rest) /\
+               r_consumed r = zlen data - zlen rest.
+Proof. exact oneshot_sound. Qed.
+Print Assumptions C08_complete_sound_oneshot.
+
+Theorem C08_complete_sound_oneshot_usingDict : forall bdec s0 data cap dict o,
+  wf s0 -> d_stage s0 = GetFrameHeader -> d_remaining s0 = 0 -> d_skip s0 = false ->
+  bytes_ok data = true -> 0 <= cap -> le_val (ztake 4 data) = FD_MAGICNUMBER ->
+  let r := snd (decompress_usingDict bdec s0 data cap dict o) in
+  r_ret r = 0 -> zlen (r_out r) < 18446744073709551616 ->
+  exists rest, frame_decode bdec (o_skip o) dict data = Some (r_out r, rest) /\
+               r_consumed r = zlen data - zlen rest.
+Proof. exact oneshot_sound_usingDict. Qed.
+Print Assumptions C08_complete_sound_oneshot_usingDict.
+
 (* ---- the part that is not proved at model level ---- *)
 (* drive a byte string through the model in pieces: chunk sizes [ns], capacities [caps] *)
 Inductive verdict := VComplete (content : list byte) (consumed : Z) | VError | VMore.
@@ -132,3 +164,16 @@ Example C08_example_header :
   parse_desc [108; 64; 3; 0; 0; 0; 0; 0; 0; 0; 41]
   = Some (mkDesc true false (Some 3) true None 4, []).
 Proof. vm_compute. reflexivity. Qed.
+
+(* the one-shot theorem applies (and is not vacuous): a frame with a linked compressed block
+   "abcabcabc..." + raw block, block and content checksums, trailing garbage *)
+Example C08_example_oneshot :
+  let blk := [0x32; 97; 98; 99; 3; 0; 0x50; 100; 101; 102; 103; 104] in
+  let frame := [4; 34; 77; 24; 0x54; 64; 174]
+               ++ le_bytes 4 12 ++ blk ++ le_bytes 4 (xxh32 0 blk)
+               ++ [2; 0; 0; 128; 120; 121] ++ le_bytes 4 (xxh32 0 [120; 121])
+               ++ [0; 0; 0; 0] ++ le_bytes 4 (xxh32 0 ([97; 98; 99; 97; 98; 99; 97; 98; 99; 100; 101; 102; 103; 104] ++ [120; 121])) in
+  let '(s1, r1) := decompress spec_decode dctx_init (frame ++ [1; 2; 3]) 100 (mkO false false false) in
+  (r_ret r1, r_consumed r1, r_out r1) = (0, zlen frame, [97; 98; 99; 97; 98; 99; 97; 98; 99; 100; 101; 102; 103; 104; 120; 121])
+  /\ frame_decode spec_decode false [] (frame ++ [1; 2; 3]) = Some (r_out r1, [1; 2; 3]).
+Proof. vm_compute. split; reflexivity. Qed.
